@@ -224,6 +224,8 @@ func c01Sets() []c01Set {
 		{"int2", []Val{vInt(8), vInt(4), vInt(2), vInt(1), vInt(6), vInt(3), vInt(12), vInt(5), vInt(10)}},
 		{"float", []Val{vFloat(6.5), vFloat(2.0), vFloat(0.5), vFloat(1.5), vFloat(4.0), vFloat(0.25), vFloat(3.5), vFloat(8.0), vFloat(1.25)}},
 		{"str", []Val{vStr("a"), vStr("b"), vStr("ab"), vStr("ba"), vStr("a"), vStr(""), vStr("c"), vStr("abc"), vStr("b")}},
+		// floats that need 16-17 significant digits (only used under ++ / --)
+		{"floatlong", []Val{vFloat(1.4000000000000001), vFloat(0.30000000000000004), vFloat(2.675), vFloat(1.005), vFloat(123456.789012345), vFloat(0.1), vFloat(1e-7), vFloat(9007199254740993), vFloat(0.7)}},
 	}
 }
 
@@ -438,7 +440,7 @@ func c01Run(c *Ctx) {
 					if !any {
 						return true
 					}
-					for _, si := range []int{0, 2} {
+					for _, si := range []int{0, 2, 4} {
 						for _, m := range []uint{0, 1<<uint(nop) - 1} {
 							toks, vars := buildFlat(ops, sets[si].vals, m, deco)
 							cs := c01Case{Mode: "deco", Toks: toks, Vars: vars, Ops: opsName, Wrap: "print", Layout: int(m & 1)}
